@@ -188,7 +188,35 @@ class Path:
         return p
 
 
+def const_table(files):
+    """Named integer constants of the given Rust source files, evaluated ({name: (value, type)})."""
+    raw = {}
+    for fpath in files:
+        try:
+            src = open(fpath).read()
+        except OSError:
+            continue
+        for m in re.finditer(r"const (\w+): (\w+) = ([^;]+);", src):
+            raw[m.group(1)] = (m.group(3), m.group(2))
+    out = {}
+    for _ in range(6):
+        for name, (expr, ty) in raw.items():
+            if name in out or ty not in INT_W:
+                continue
+            e = re.sub(r"\b([A-Z][A-Z0-9_]+)\b", lambda mm: str(out[mm.group(1)][0]) if mm.group(1) in out else mm.group(0), expr)
+            e = re.sub(r"(\d)_(\d)", r"\1\2", e).replace("/", "//")
+            e = re.sub(r" as \w+", "", e)
+            if re.fullmatch(r"[\d\s()+\-*/<>]+", e):
+                try:
+                    out[name] = (int(eval(e)), ty)
+                except Exception:
+                    pass
+    return out
+
+
 class Sym:
+    CONSTS = {}
+
     def __init__(self, fn, prefix="", models=None, max_visits=1):
         self.fn = fn
         self.prefix = prefix
@@ -310,9 +338,16 @@ class Sym:
         if m and m.group(2) in INT_W:
             return bv(bvconst(int(m.group(1)), INT_W[m.group(2)]), INT_W[m.group(2)], m.group(2) in SIGNED)
         m = re.match(r"(\w+)::(MAX|MIN)$", c)
-        if m and m.group(1) in INT_W and m.group(1) not in SIGNED:
+        if m and m.group(1) in INT_W:
             w = INT_W[m.group(1)]
+            if m.group(1) in SIGNED:
+                val = (1 << (w - 1)) - 1 if m.group(2) == "MAX" else (1 << (w - 1))
+                return bv(bvconst(val, w), w, True)
             return bv(bvconst((1 << w) - 1 if m.group(2) == "MAX" else 0, w), w)
+        m = re.match(r"(?:[\w:<> ,]*::)?([A-Z][A-Z0-9_]+)$", c)
+        if m and m.group(1) in self.CONSTS:
+            val, ty = self.CONSTS[m.group(1)]
+            return bv(bvconst(val, INT_W[ty]), INT_W[ty], ty in SIGNED)
         self.fresh += 1
         return V("opaque", t="const!%d" % self.fresh)
 
@@ -608,12 +643,12 @@ class Sym:
                         args.append(V("opaque", t="arg"))
                 dp = parse_place(t["dest"])
                 dty = self.place_type(dp)
-                res = None
-                for pat, fnm in self.models.items():
+                res = make_size_of(t["func"]) if "size_of" in t["func"] else None
+                for pat, fnm in ([] if res is not None else self.models.items()):
                     if re.search(pat, t["func"]):
                         res = fnm(self, path, args, dty)
                         break
-                path.events.append((t["func"], [getattr(a, "t", None) for a in args], bb))
+                path.events.append((t["func"], [getattr(a, "t", None) for a in args], bb, list(path.pc)))
                 if res is None:
                     # an unmodelled callee may write through every `&mut` argument: forget what is known below it
                     for a in args:
@@ -716,7 +751,43 @@ def m_deref(sym, path, args, dty):
     return None
 
 
+_SIZES = {"u8": 1, "i8": 1, "u16": 2, "i16": 2, "u32": 4, "i32": 4, "u64": 8, "i64": 8, "usize": 8, "isize": 8, "u128": 16, "bool": 1}
+
+
+def _size_of_type(t):
+    t = t.strip()
+    if t in _SIZES:
+        return _SIZES[t]
+    m = re.match(r"\[(.*); (\d+)\]$", t)
+    if m and _size_of_type(m.group(1)) is not None:
+        return _size_of_type(m.group(1)) * int(m.group(2))
+    if t in ("MerkleHash", "DataHash", "merklehash::DataHash", "merklehash::MerkleHash"):
+        return 32
+    return None
+
+
+def m_size_of(sym, path, args, dty):
+    return None
+
+
+def make_size_of(callee):
+    m = re.search(r"size_of(?:_val)?::<(.*)>$", callee)
+    n = _size_of_type(m.group(1)) if m else None
+    return bv(bvconst(n, 64), 64) if n is not None else None
+
+
+def m_reader_bytes(sym, path, args, dty):
+    """countio::Counter::reader_bytes / writer_bytes: a monotone counter (environment contract)."""
+    r = sym.havoc("usize", "count")
+    last = path.store.get("__last_count")
+    if last is not None:
+        path.pc.append("(bvuge %s %s)" % (r.t, last.t))
+    path.store["__last_count"] = r
+    return r
+
+
 STD_MODELS = {
+    r"Counter::<.*>::(reader|writer)_bytes$": m_reader_bytes,
     r"as Deref>::deref$|as DerefMut>::deref_mut$": m_deref,
     r"^(std::vec::)?Vec::<.*>::len$|^core::slice::<impl \[.*\]>::len$": m_len,
     r"as (std::ops::)?Index<(std::ops::)?Range<usize>>>::index$": m_index_range,
